@@ -311,6 +311,79 @@ fn eval(a: &[&str]) -> String {
                 _ => postcard::from_bytes::<Relaxed>(&b).map(|v| format!("OK {}/{}", show_i(v.numerator()), show_u(v.denominator()))).unwrap_or("ERR".into()),
             }
         }
+        // ---------------- log2 bounds of primitives (EstimatedLog2 in dashu-base)
+        "plog2" => {
+            macro_rules! one {
+                ($t:ty) => {{
+                    let v: $t = i128::from_str_radix(a[2], 10).unwrap() as $t;
+                    let (lb, ub) = v.log2_bounds();
+                    format!("{:08x} {:08x} {:08x}", lb.to_bits(), ub.to_bits(), v.log2_est().to_bits())
+                }};
+            }
+            match a[1] {
+                "u8" => one!(u8),
+                "u16" => one!(u16),
+                "u32" => one!(u32),
+                "u64" => one!(u64),
+                "usize" => one!(usize),
+                "i8" => one!(i8),
+                "i16" => one!(i16),
+                "i32" => one!(i32),
+                "i64" => one!(i64),
+                "isize" => one!(isize),
+                "i128" => one!(i128),
+                _ => {
+                    let v: u128 = u128::from_str_radix(a[2], 10).unwrap();
+                    let (lb, ub) = v.log2_bounds();
+                    format!("{:08x} {:08x} {:08x}", lb.to_bits(), ub.to_bits(), v.log2_est().to_bits())
+                }
+            }
+        }
+        "plog2all" => {
+            // every value of an 8/16-bit type on one line: "lb ub est" triples
+            let mut s = String::new();
+            macro_rules! all {
+                ($t:ty) => {{
+                    for v in <$t>::MIN..=<$t>::MAX {
+                        if v == 0 {
+                            s.push_str("- - - ");
+                            continue;
+                        }
+                        let (lb, ub) = v.log2_bounds();
+                        s.push_str(&format!("{:08x} {:08x} {:08x} ", lb.to_bits(), ub.to_bits(), v.log2_est().to_bits()));
+                    }
+                }};
+            }
+            match a[1] {
+                "u8" => all!(u8),
+                "i8" => all!(i8),
+                "u16" => all!(u16),
+                _ => all!(i16),
+            }
+            s
+        }
+        "flog2" => {
+            if a[1] == "f32" {
+                let v = f32::from_bits(u32::from_str_radix(a[2], 16).unwrap());
+                let (lb, ub) = v.log2_bounds();
+                format!("{:08x} {:08x} {:08x}", lb.to_bits(), ub.to_bits(), v.log2_est().to_bits())
+            } else {
+                let v = f64::from_bits(u64::from_str_radix(a[2], 16).unwrap());
+                let (lb, ub) = v.log2_bounds();
+                format!("{:08x} {:08x} {:08x}", lb.to_bits(), ub.to_bits(), v.log2_est().to_bits())
+            }
+        }
+        "biglog2" => {
+            // UBig / IBig / FBig<2> / FBig<10> / RBig with est
+            let (lb, ub, est) = match a[1] {
+                "u" => { let x = uint(a[2]); let (l, u) = x.log2_bounds(); (l, u, x.log2_est()) }
+                "i" => { let x = int(a[2]); let (l, u) = x.log2_bounds(); (l, u, x.log2_est()) }
+                "d" => { let x = dec(a[2], a[3], a[4]); let (l, u) = x.log2_bounds(); (l, u, x.log2_est()) }
+                "b" => { let x = bin(a[2], a[3], a[4]); let (l, u) = x.log2_bounds(); (l, u, x.log2_est()) }
+                _ => { let x = rat(a[2], a[3]); let (l, u) = x.log2_bounds(); (l, u, x.log2_est()) }
+            };
+            format!("{:08x} {:08x} {:08x}", lb.to_bits(), ub.to_bits(), est.to_bits())
+        }
         other => format!("UNKNOWN-OP {other}"),
     }
 }
